@@ -319,7 +319,8 @@ def r6_2(ctx):
     # shutdown drains the queue and releases each command
     sd = p.func("mbox.Mailbox.shutdown")
     ctx.analysed(sd)
-    drained = False
+    from .common import pm_of as _pm_of
+    drained = _pm_of(p, sd).has("while True:\n    imap_cmd = self.task_queue.get_nowait()\n    imap_cmd.ready.set()")
     for w in ast.walk(sd.node):
         if isinstance(w, ast.While):
             gets = [s for s in w.body if isinstance(s, ast.Assign) and isinstance(strip_await(s.value), ast.Call) and call_name(strip_await(s.value)) in ("get_nowait", "get")]
